@@ -266,7 +266,7 @@ namespace Givaro {
         // write(cerr << "U: ",U) << endl;
         Rep puiss, tmp;
         mod(puiss, P, U);
-        assign(W,one);
+        mod(W, one, U); // P^0 mod U: the zero polynomial when U is a constant
 
         Integer n(pwr);
         if (n<0) {
